@@ -1,11 +1,13 @@
 package main
 
 import (
+	"fmt"
 	"go/constant"
 	"go/token"
 	"go/types"
 	"math"
 	"math/bits"
+	"os"
 	"strings"
 
 	"golang.org/x/tools/go/ssa"
@@ -17,17 +19,18 @@ import (
 // execution of the program: no memory, no calls, no control flow except the
 // min/max builtins. ok=false when the expression contains anything else.
 type intEnv struct {
-	lens    map[ssa.Value]int64 // len(v) for slice-typed values
-	params  map[ssa.Value]int64
-	globals map[string]int64 // package-level variable name -> value
-	fuel    *int             // shared step budget for helper/loop evaluation
-	stack   int              // helper inlining depth
-	unknown map[ssa.Value]bool
-	closed  bool                          // every phi that matters has been assigned by the walker
-	flens   map[string]int64              // len of a slice-typed struct field loaded through a parameter, by field name
-	cells   map[ssa.Value]int64           // content of an address-valued operand (captured variable)
-	opaque  func(ssa.Value) (int64, bool) // rule-supplied inputs for designated sub-expressions
-	watch   func(ssa.Instruction, intEnv) // called for every instruction of every block the walker executes
+	lens      map[ssa.Value]int64 // len(v) for slice-typed values
+	params    map[ssa.Value]int64
+	globals   map[string]int64 // package-level variable name -> value
+	fuel      *int             // shared step budget for helper/loop evaluation
+	stack     int              // helper inlining depth
+	unknown   map[ssa.Value]bool
+	closed    bool                          // every phi that matters has been assigned by the walker
+	flens     map[string]int64              // len of a slice-typed struct field loaded through a parameter, by field name
+	cells     map[ssa.Value]int64           // content of an address-valued operand (captured variable)
+	opaque    func(ssa.Value) (int64, bool) // rule-supplied inputs for designated sub-expressions
+	watch     func(ssa.Instruction, intEnv) // called for every instruction of every block the walker executes
+	skipLoops bool                          // step over inner loops whose condition cannot be evaluated
 }
 
 func wrapToType(x int64, t types.Type) int64 {
@@ -562,7 +565,43 @@ func walkBlocks(b, from *ssa.BasicBlock, env intEnv, stop func(*ssa.BasicBlock) 
 		case *ssa.If:
 			k, ok := evalInt(t.Cond, env, 0)
 			if !ok {
+				// an inner loop whose trip count is not an evaluable quantity is
+				// stepped over: its header phis (and everything computed from
+				// them) become unknown, control continues at the loop's exit
+				if env.skipLoops {
+					if _, in := natLoop(b); in != nil {
+						if h, _ := natLoop(b); h == b {
+							var exit *ssa.BasicBlock
+							for _, s := range b.Succs {
+								if !in[s] {
+									exit = s
+								}
+							}
+							if exit != nil {
+								for lb := range in {
+									for _, ins := range lb.Instrs {
+										if p, isPhi := ins.(*ssa.Phi); isPhi {
+											delete(env.params, p)
+											delete(env.lens, p)
+											if env.unknown != nil {
+												env.unknown[p] = true
+											}
+										}
+									}
+								}
+								from, b = b, exit
+								continue
+							}
+						}
+					}
+				}
+				if os.Getenv("JAMVERIF_EVALDEBUG") != "" {
+					fmt.Fprintf(os.Stderr, "evaldebug: cannot evaluate %s in %s\n", exprStr(t.Cond, shapeOpts), b.Parent().Name())
+				}
 				return nil
+			}
+			if os.Getenv("JAMVERIF_EVALDEBUG") == "2" {
+				fmt.Fprintf(os.Stderr, "evaldebug: %s = %d in %s\n", exprStr(t.Cond, shapeOpts), k, b.Parent().Name())
 			}
 			if k != 0 {
 				from, b = b, b.Succs[0]
